@@ -112,25 +112,18 @@ example : mpn_gcdext (3 ^ 50 * 7 ^ 30) 3 (3 ^ 45 * 5 ^ 20) 2 = (3 ^ 45, 14541962
 /-- mpn_hgcd2 on the 128-bit inputs (ah, al), (bh, bl) (model `hgcd2`: initial subtraction, the double
     precision loop with `div2`, the switch to single precision on the top 64 of 96 bits, the single
     precision loop with `div1`, every `goto done` / `break`): whenever it returns 1, the matrix M has
-    determinant 1, is not the identity, and M·(x; y) = (A; B) holds EXACTLY over the naturals for some
-    x, y ≥ 3·2^63 — so x = u11·A - u01·B and y = u00·B - u10·A are non-negative although the single
-    precision loop only saw truncated values — and no `u += q * u'` ever wrapped (row sums < B).
+    determinant 1, is not the identity, its row sums are below 2^63 (entries fit GMP_LIMB_BITS - 1
+    bits; in particular no `u += q * u'` ever wrapped), and M·(x; y) = (A; B) holds EXACTLY over the
+    naturals for some x, y ≥ 3·2^63 — so x = u11·A - u01·B and y = u00·B - u10·A are non-negative
+    although the single precision loop only saw truncated values.
     No termination argument is needed: the invariant holds at each of the four program points. -/
 theorem hgcd2_exact (ah al bh bl : Nat) (m : M1) (hah : ah < B) (hal : al < B) (hbh : bh < B) (hbl : bl < B)
     (h : hgcd2 ah al bh bl = some m) :
     m.u00 * m.u11 = m.u01 * m.u10 + 1 ∧ (m.u01 ≠ 0 ∨ m.u10 ≠ 0) ∧
-    m.u00 + m.u01 < B ∧ m.u10 + m.u11 < B ∧
+    m.u00 + m.u01 < 2 ^ 63 ∧ m.u10 + m.u11 < 2 ^ 63 ∧
     ∃ x y, ah * B + al = m.u00 * x + m.u01 * y ∧ bh * B + bl = m.u10 * x + m.u11 * y ∧
       3 * 2 ^ 63 ≤ x ∧ 3 * 2 ^ 63 ≤ y := by
-  have hp := hgcd2_post ah al bh bl m hah hal hbh hbl h
-  have hA : ah * B + al < B * B := by
-    have : (ah + 1) * B ≤ B * B := Nat.mul_le_mul_right _ hah
-    rw [Nat.add_mul] at this; omega
-  have hB : bh * B + bl < B * B := by
-    have : (bh + 1) * B ≤ B * B := Nat.mul_le_mul_right _ hbh
-    rw [Nat.add_mul] at this; omega
-  obtain ⟨e1, e2⟩ := post_entries hA hB hp
-  obtain ⟨x, y, ⟨hd, eX, eY⟩, hx, hy, hn⟩ := hp
+  obtain ⟨x, y, ⟨hd, eX, eY⟩, hx, hy, hn, e1, e2⟩ := hgcd2_post ah al bh bl m hah hal hbh hbl h
   exact ⟨hd, hn, e1, e2, x, y, eX, eY, hx, hy⟩
 
 -- non-vacuity: a call that runs through both the double and the single precision loop
